@@ -124,6 +124,85 @@ vals['instrsizeLimit1'], vals['instrsizeLimit2'], vals['instrsizeLimit3'] = limi
 import ctypes
 vals['cIntBits'] = ctypes.sizeof(ctypes.c_int()) * 8
 
+# ---- the published JSON schema (code_data/__init__.py: _definitions, JSON_SCHEMA) -> CDV/ExtractedSchema.lean
+SCHEMA_KEYS = {'type', 'enum', 'required', 'properties', 'items', 'anyOf', '$ref'}
+IGNORED_KEYS = {'description', 'default', 'title'}          # annotations: no effect on validation
+JTY = {'object', 'array', 'string', 'integer', 'number', 'boolean', 'null'}
+schema_problems = []
+
+
+def lit(node):
+    """python value of a literal ast node; names/attributes (the docstrings used as descriptions) become None"""
+    if isinstance(node, ast.Constant):
+        return node.value
+    if isinstance(node, ast.Dict):
+        return {lit(k): lit(v) for k, v in zip(node.keys, node.values)}
+    if isinstance(node, (ast.List, ast.Tuple)):
+        return [lit(x) for x in node.elts]
+    return None
+
+
+def lean_str(x):
+    return '"' + x.replace('\\', '\\\\').replace('"', '\\"') + '"'
+
+
+def lean_schema(sc, where):
+    if not isinstance(sc, dict):
+        schema_problems.append('%s: not a schema object' % where); return '.anyOf []'
+    for k in sc:
+        if k not in SCHEMA_KEYS and k not in IGNORED_KEYS:
+            schema_problems.append('%s: keyword %r is not modelled' % (where, k))
+    if '$ref' in sc:
+        ref = sc['$ref']
+        if not (isinstance(ref, str) and ref.startswith('#/definitions/')) or set(sc) - {'$ref'} - IGNORED_KEYS:
+            schema_problems.append('%s: unsupported $ref %r' % (where, ref)); return '.anyOf []'
+        return '.ref ' + lean_str(ref[len('#/definitions/'):])
+    if 'anyOf' in sc:
+        if set(sc) - {'anyOf'} - IGNORED_KEYS:
+            schema_problems.append('%s: anyOf next to other keywords' % where)
+        return '.anyOf [' + ', '.join(lean_schema(a, '%s/anyOf[%d]' % (where, i)) for i, a in enumerate(sc['anyOf'])) + ']'
+    ty = sc.get('type')
+    if ty is not None and ty not in JTY:
+        schema_problems.append('%s: type %r' % (where, ty)); ty = None
+    enum = sc.get('enum')
+    if enum is not None and not all(isinstance(e, str) for e in enum):
+        schema_problems.append('%s: non-string enum' % where); enum = None
+    req = sc.get('required', [])
+    props = sc.get('properties', {})
+    items = sc.get('items')
+    return '.node %s %s [%s] [%s] %s' % (
+        '(some .%s)' % ty if ty else 'none',
+        '(some [%s])' % ', '.join(lean_str(e) for e in enum) if enum is not None else 'none',
+        ', '.join(lean_str(r) for r in req),
+        ', '.join('(%s, %s)' % (lean_str(k), lean_schema(v, where + '/' + k)) for k, v in props.items()),
+        '(some (%s))' % lean_schema(items, where + '/items') if items is not None else 'none')
+
+
+init = parse('__init__.py')
+defs_node = root_node = None
+for n in init.body:
+    if isinstance(n, (ast.Assign, ast.AnnAssign)):
+        tgt = n.targets[0] if isinstance(n, ast.Assign) else n.target
+        if getattr(tgt, 'id', None) == '_definitions': defs_node = n.value
+        if getattr(tgt, 'id', None) == 'JSON_SCHEMA': root_node = n.value
+schema_text = None
+if not isinstance(defs_node, ast.Dict) or not isinstance(root_node, ast.Dict):
+    problems.append('JSON_SCHEMA / _definitions not found as dict displays')
+else:
+    defs = lit(defs_node)
+    root = lit(root_node)
+    rootref = root.get('$ref')
+    if not (isinstance(rootref, str) and rootref.startswith('#/definitions/')):
+        problems.append('JSON_SCHEMA: root is not a $ref into definitions')
+    else:
+        body = ',\n  '.join('(%s, %s)' % (lean_str(k), lean_schema(v, k)) for k, v in defs.items())
+        schema_text = ('import CDV.SchemaDef\n'
+                       '/-! GENERATED by harness/extract.py from code_data/__init__.py (_definitions, JSON_SCHEMA) — do not edit. -/\n'
+                       'namespace CDV.Extracted\n\n'
+                       'def jsonDefs : List (String × Schema) := [\n  ' + body + ']\n\n'
+                       'def jsonRoot : Schema := .ref ' + lean_str(rootref[len('#/definitions/'):]) + '\n\nend CDV.Extracted\n')
+    problems.extend(schema_problems)
+
 # model map drift: functions defined in the anchored modules vs. the functions the model knows about
 MODEL_MAP = json.load(open(os.path.join(os.path.dirname(os.path.abspath(__file__)), 'model_map.json')))
 for mod, known in MODEL_MAP.items():
@@ -158,6 +237,12 @@ for title, names in groups:
     lines.append('')
 lines.append('end CDV.Extracted')
 text = '\n'.join(lines) + '\n'
+out_schema = os.path.join(os.path.dirname(out), 'ExtractedSchema.lean')
+old_schema = open(out_schema).read() if os.path.exists(out_schema) else None
+if old_schema != schema_text:
+    with open(out_schema, 'w') as f:
+        f.write(schema_text)
+    print('EXTRACTED schema (changed)')
 old = open(out).read() if os.path.exists(out) else None
 if old != text:
     with open(out, 'w') as f:
